@@ -29,13 +29,25 @@ def sh(cmd, cwd=None, timeout=1800):
 
 
 def suite(wt):
-    for attempt in range(3):
-        rc, out = sh("go test -vet=off -count=1 ./...", cwd=wt)
-        fails = [l for l in out.splitlines() if l.startswith("--- FAIL") or l.startswith("FAIL")]
-        demo_fail = [l for l in out.splitlines() if "SeedDemo" in l or "seed_demo" in l]
-        if rc == 0:
-            return True, "pass (attempt %d)" % (attempt + 1)
-    return False, "\n".join(fails[:10])
+    """f1's own suite; its timing tests flake under CPU load, so packages that fail are re-run on their own."""
+    rc, out = sh("go test -vet=off -count=1 ./...", cwd=wt)
+    if rc == 0:
+        return True, "pass"
+    if "[build failed]" in out or "cannot find" in out:
+        return False, out[-800:]
+    fails = []
+    for pkg in sorted(set(re.findall(r"^FAIL\s+(\S+)", out, re.M))):
+        ok = False
+        for attempt in range(4):
+            rc2, out2 = sh("go test -vet=off -count=1 -parallel 4 %s" % pkg, cwd=wt)
+            if rc2 == 0:
+                ok = True
+                break
+        if not ok:
+            fails += [l for l in out2.splitlines() if l.startswith("--- FAIL") or l.startswith("FAIL")][:6]
+    if fails:
+        return False, "\n".join(fails[:10])
+    return True, "pass (packages with timing flakes re-run on their own)"
 
 
 def demo_tests(demo_dir):
